@@ -148,8 +148,16 @@ var anyType = reflect.TypeOf((*any)(nil)).Elem()
 
 // c12Build constructs the Go value and its model.
 func c12Build(s GSpec) gBuilt {
-	if s.E == nil && s.K != "static" && s.K != "casemap" {
+	if s.E == nil && s.K != "static" && s.K != "casemap" && s.K != "samename" {
 		return c12BuildLeaf(s)
+	}
+	if s.K == "samename" {
+		// three different types, all named Row (declared in different functions), in one value
+		a, am := c12RowA()
+		b, bm := c12RowB()
+		cc, cm := c12RowC()
+		v := []any{a, b, cc, a}
+		return gBuilt{reflect.ValueOf(v), vArr(am, bm, cm, am), true, false}
 	}
 	if s.K == "casemap" {
 		v := map[string]any{"name": "lower", "Name": "upper", "id": 1, "ID": 2, "Url": "U"}
@@ -264,7 +272,7 @@ func c12Specs(depth int) []GSpec {
 	for _, l := range levels {
 		all = append(all, l...)
 	}
-	all = append(all, GSpec{K: "static"}, GSpec{K: "casemap"})
+	all = append(all, GSpec{K: "static"}, GSpec{K: "casemap"}, GSpec{K: "samename"})
 	return all
 }
 
@@ -435,4 +443,31 @@ func init() {
 		Run:    c12Run,
 	}
 	registerTyped(p, c12Check)
+}
+
+// Three distinct struct types that share the name Row (a cache keyed by the type's name would mix them up).
+func c12RowA() (any, Val) {
+	type Row struct {
+		A int
+		B string
+	}
+	return Row{A: 1, B: "b"}, vObj("A", vInt(1), "B", vStr("b"))
+}
+
+func c12RowB() (any, Val) {
+	type Row struct {
+		hidden int
+		Z      string
+	}
+	return Row{hidden: 1, Z: "z"}, vObj("Z", vStr("z"))
+}
+
+func c12RowC() (any, Val) {
+	type Row struct {
+		A []int
+		B int
+		C *int
+		D float64
+	}
+	return &Row{A: []int{7}, B: 2, D: 0.5}, vObj("A", vArr(vInt(7)), "B", vInt(2), "C", vNil(), "D", vFloat(0.5))
 }
